@@ -149,7 +149,15 @@ impl TrackSpec {
                 b = b.observation(ObservationBuilder::new(*c).observation_attributes(*v as f32).build());
             }
         }
-        b.build().unwrap()
+        let mut t = b.build().unwrap();
+        // a class listed without values: the track received an attributes-only update addressed to that class
+        // (no observation, no feature) - it still does not HAVE the class
+        for (c, vs) in &self.obs {
+            if vs.is_empty() {
+                t.add_observation(*c, None, None, Some(TAUpd)).unwrap();
+            }
+        }
+        t
     }
 }
 
@@ -324,6 +332,7 @@ fn run_case(c: &Case) {
     let mut err_s = String::new();
     let mut other_err = 0usize;
     let mut after = String::new();
+    let mut before = String::new();
     let outcome = guarded(|| {
         let mut store: Store = TrackStoreBuilder::new(c.shards)
             .default_attributes(TA::default())
@@ -331,8 +340,16 @@ fn run_case(c: &Case) {
             .notifier(NoopNotifier)
             .build();
         for t in &c.store {
-            store.add_track(t.build()).unwrap();
+            let mut plain = t.clone();
+            plain.obs.retain(|(_, vs)| !vs.is_empty());
+            store.add_track(plain.build()).unwrap();
+            for (cl, vs) in &t.obs {
+                if vs.is_empty() {
+                    store.add(t.id, *cl, None, None, Some(TAUpd)).unwrap();
+                }
+            }
         }
+        before = dump_store(&store, c.shards);
         let (ok, err) = if c.kind == "foreign" {
             store.foreign_track_distances(c.cands.iter().map(|t| t.build()).collect(), c.cls, c.ob)
         } else {
@@ -434,7 +451,7 @@ fn run_case(c: &Case) {
         })
         .collect();
     println!(
-        "run kind={} S={} cls={} ob={} store={} cands={} sched={} recv={} mode={} ok={} err={} other_err={} after={} log={} status={}",
+        "run kind={} S={} cls={} ob={} store={} cands={} sched={} recv={} mode={} ok={} err={} other_err={} before={} after={} log={} status={}",
         c.kind,
         c.shards,
         c.cls,
@@ -447,6 +464,7 @@ fn run_case(c: &Case) {
         ok_s,
         err_s,
         other_err,
+        before,
         after,
         log.join("."),
         status
@@ -475,6 +493,12 @@ fn gen_track(rng: &mut Rng, id: u64, rich: bool) -> TrackSpec {
     }
     if rng.chance(1, 10) {
         obs.clear(); // a track with no observations at all
+    }
+    // attributes-only updates addressed to classes the track does not have
+    for cls in 0..3u64 {
+        if !obs.iter().any(|(c, _)| *c == cls) && rng.chance(1, 4) {
+            obs.push((cls, vec![]));
+        }
     }
     TrackSpec { id, grp, status, obs }
 }
@@ -669,7 +693,7 @@ fn gen_c10(seed: u64, n: usize, tier: &str) {
         let owned = si % 3 == 2;
         let nst = 2 + rng.below(3) as usize;
         let store = gen_store(&mut rng, nst, 6);
-        let cls = if rng.chance(3, 4) { 0 } else { rng.below(3) };
+        let cls = if rng.chance(1, 2) { 0 } else { rng.below(3) };
         let ob = rng.chance(1, 2);
         let mut case = Case { kind: "foreign".into(), shards, cls, ob, store: store.clone(), cands: vec![], ids: vec![], sched: vec![], recv: 0, gated: true };
         let ccount;
@@ -720,7 +744,7 @@ fn gen_c10(seed: u64, n: usize, tier: &str) {
         let shards = 1 + rng.below(4) as usize;
         let nst = rng.below(8) as usize;
         let store = gen_store(&mut rng, nst, 12);
-        let cls = if rng.chance(3, 4) { 0 } else { rng.below(3) };
+        let cls = if rng.chance(1, 2) { 0 } else { rng.below(3) };
         let ob = rng.chance(1, 2);
         let mut case = Case { kind: "foreign".into(), shards, cls, ob, store: store.clone(), cands: vec![], ids: vec![], sched: vec![], recv: (bi % 3) as u8, gated: true };
         let ccount;
